@@ -231,7 +231,12 @@ def _ticks_obligation(which, law, tier):
         if r != "sat":
             return res.out("inconclusive", f"RLX {r} for cpus={cpus}")
         rd, bs, tp = _candidate(m, read, base, tps)
-        # keep the other phase at two ticks so that the one-tick minimum cannot mask the candidate
+        # the model's own point first (the expression may depend on both phases' inputs) ...
+        rep = replay_ticks(rd, bs, law, cpus, tp)
+        if rep:
+            return res.out("violated", rep, {"replay": {"kind": "kn", "func": "vf.kernels.c05:replay_ticks",
+                                                        "args": dict(read=rd, base=bs, law=law, cpus=cpus, tps=tp)}})
+        # ... then keep the other phase at two ticks so that the one-tick minimum cannot mask the candidate
         if which == "io":
             bs = 2.5 / tp * float(1 / exact_cpu_time(law, cpus, 1))
         else:
@@ -240,13 +245,42 @@ def _ticks_obligation(which, law, tier):
         if rep:
             return res.out("violated", rep, {"replay": {"kind": "kn", "func": "vf.kernels.c05:replay_ticks",
                                                         "args": dict(read=rd, base=bs, law=law, cpus=cpus, tps=tp)}})
-        # candidate did not reproduce: search bit-exactly at concrete rates
+        # candidate did not reproduce (it may only exploit the rounding slack of the relaxation): search for a gross
+        # error in exact real arithmetic, far (2^-20 relative) from every rounding zone, so that it must reproduce
+        w = _exact_search(res, expr, which, law, cpus, tier)
+        if w is not None:
+            return w
+        # ... and bit-exactly at concrete rates
         w = _fpx_search(res, expr, which, law, cpus, tier)
         if w is not None:
             return w
         return res.out("inconclusive", f"RLX sat (candidate read={rd} base={bs} tps={tp} cpus={cpus} does not reproduce) and FPX found nothing")
     return res.out("discharged", f"{which} ticks of law {law}: RLX unsat for cpus in {cpus_list[:4]}..{cpus_list[-1]} ({len(cpus_list)} values), "
                                  f"read/base in [0,2^20], tps in [1,{MAXTPS}]")
+
+
+def _exact_search(res, expr, which, law, cpus, tier):
+    wide = Fraction(1, 2 ** 20)
+    for tp in ([1, 10, 100, 1000] if tier != "thorough" else [1, 2, 7, 10, 100, 1000, 100000]):
+        dom = A.RLX(exact=True)
+        read, base = dom.float_var("read"), dom.float_var("base")
+        env, tl = container_env(dom, dom.lift(tp), cpus, read, base, law)
+        n = A.ev(expr, env)
+        x = read.t * tp / 20 if which == "io" else Q(exact_cpu_time(law, cpus, 1)) * base.t * tp
+        # keep the whole container at three ticks or more so that the one-tick minimum cannot mask the point
+        other = Q(exact_cpu_time(law, cpus, 1)) * base.t * tp if which == "io" else read.t * tp / 20
+        cons = dom.side + [read.t >= 0, read.t <= 1000, base.t >= 0, base.t <= 1000, other >= 2, x >= 1,
+                           z3.Not(zone_formula(n.t, x, wide))]
+        r, m = solve(res, cons, 30000)
+        if r != "sat":
+            continue
+        rd = float(A.real_to_fraction(m, read.t))
+        bs = float(A.real_to_fraction(m, base.t))
+        rep = replay_ticks(rd, bs, law, cpus, tp)
+        if rep:
+            return res.out("violated", rep, {"replay": {"kind": "kn", "func": "vf.kernels.c05:replay_ticks",
+                                                        "args": dict(read=rd, base=bs, law=law, cpus=cpus, tps=tp)}})
+    return None
 
 
 def _fpx_search(res, expr, which, law, cpus, tier):
